@@ -175,13 +175,29 @@ def run(R: vlib.Run):
                         R.case(("fil", dt, nbits, nsamps, nchans, split, vals.tobytes()), regime=f"fil-{nbits}bit",
                                sample=case if (nbits, dt, si, kind) in ((4, "uint8", 1, "int"), (32, "int64", 1, "int")) else None)
                         refused = None
+                        # memory layout of what is handed to cwrite: the same logical (nsamps, nchans) samples in every case
+                        layout = rng.choice(["flat", "flat", "c2d", "f2d", "tview", "strided", "readonly"] if nbits >= 8 else ["flat"])      # the packing kernels take contiguous writable uint8 only: other layouts are refused there (TypeError), not claimed
+                        case["layout"] = layout
+                        if layout == "c2d":
+                            arr = vals.reshape(nsamps, nchans)
+                        elif layout == "f2d":
+                            arr = np.asfortranarray(vals.reshape(nsamps, nchans))
+                        elif layout == "tview":
+                            arr = np.ascontiguousarray(vals.reshape(nsamps, nchans).T).T
+                        elif layout == "strided":
+                            big = np.zeros(2 * len(vals), dtype=vals.dtype); big[::2] = vals; arr = big[::2]
+                        elif layout == "readonly":
+                            arr = vals.copy(); arr.setflags(write=False)
+                        else:
+                            arr = vals
+                        cut = split if arr.ndim == 2 else split * nchans
                         try:
                             w = hdr.prep_outfile(path, nbits=nbits)
                             try:
                                 if split:
-                                    w.cwrite(vals[: split * nchans]); w.cwrite(vals[split * nchans:])
+                                    w.cwrite(arr[:cut]); w.cwrite(arr[cut:])
                                 else:
-                                    w.cwrite(vals)
+                                    w.cwrite(arr)
                             finally:
                                 w.close()
                         except Exception as e:  # noqa: BLE001
